@@ -668,6 +668,10 @@ func (p *Parser) evaluateImports(ctx context) ([]Statement, error) {
 		}
 
 		for {
+			// Skip empty lines within an import group.
+			for multiple && p.peek().Type() == lexer.NEWLINE {
+				p.eat()
+			}
 			imp, err := p.evaluateImport()
 
 			if err != nil {
@@ -740,6 +744,10 @@ func (p *Parser) evaluateImports(ctx context) ([]Statement, error) {
 				}
 			}
 
+			// Skip empty lines within an import group.
+			for multiple && p.peek().Type() == lexer.NEWLINE {
+				p.eat()
+			}
 			nextToken = p.peek()
 			nextTokenType := nextToken.Type()
 
